@@ -67,6 +67,14 @@ ALL = dict(chain2=chain2, chain3=chain3, tee=tee, tee_rejoin2=tee_rejoin2, join2
            balance2=balance2, hidden=hidden, required2=required2)
 
 
+def blocking(topo, names=None):
+    """the named filters (default: all) are applications that drive MQ with the blocking calls (timeout = None)"""
+    for f in (names or topo.names):
+        topo.filters[f]['blocking'] = True
+    topo.name += 'Blk' + ('' if names is None else ''.join(names))
+    return topo
+
+
 def with_required(topo):
     """every publisher declares its synchronized consumers as required outputs (the C03 assumption)"""
     for g in topo.names:
